@@ -495,4 +495,195 @@ theorem foldl_insertPath_mem : ∀ (l : List Key) (ks : List Key) (k : Key),
       exact h.2 q (by simp [hq])
 
 
+/-! ### the whole `with` block: exit succeeds, and a block without key edits leaves the original as it was -/
+
+theorem applyFwd_shape_res (op : Op) (s : St) (y : Yielded) (h : applyFwd (.shape op) s = .ok y) :
+    resShape s.bs (opMeta op s.bs s.names) = some y.st.bs ∧ prod y.st.bs = prod s.bs ∧
+    y.recorded = true ∧ (y.isSelf = true → y.st = s) ∧ y.st.locked = s.locked ∧ y.st.keys = s.keys := by
+  unfold applyFwd at h
+  simp only [] at h
+  split at h
+  · cases h
+  · simp only [Except.ok.injEq] at h; subst h
+    rename_i hm; simp [resShape, hm]
+  · rename_i bs' nm lc hm
+    split at h
+    · cases h
+    · split at h
+      · cases h
+      · simp only [Except.ok.injEq] at h; subst h
+        rename_i hp _
+        simp [resShape, hm]; omega
+
+theorem applyFwd_shape_ok (op : Op) (s : St) (bs' : Shape)
+    (h : resShape s.bs (opMeta op s.bs s.names) = some bs') (hp : prod bs' = prod s.bs)
+    (hne : emptyUnflatten op = false) : ∃ y, applyFwd (.shape op) s = .ok y ∧ y.st.bs = bs' ∧ y.st.keys = s.keys := by
+  unfold applyFwd
+  simp only []
+  split
+  · rename_i e hm; simp [resShape, hm] at h
+  · rename_i hm; simp only [resShape, hm, Option.some.injEq] at h; exact ⟨_, rfl, h, rfl⟩
+  · rename_i b nm lc hm
+    simp only [resShape, hm, Option.some.injEq] at h; subst h
+    simp [hp, hne]
+
+theorem insertPath_of_mem (ks : List Key) (p : Key) (h : p ∈ ks) : insertPath ks p = ks := by
+  unfold insertPath
+  have : ks.contains p = true := by simpa using h
+  rw [if_pos this]
+
+theorem foldl_insertPath_sub : ∀ (l ks : List Key), (∀ p ∈ l, p ∈ ks) → l.foldl insertPath ks = ks
+  | [], _, _ => rfl
+  | p :: l, ks, h => by
+    rw [List.foldl_cons, insertPath_of_mem ks p (h p (by simp))]
+    exact foldl_insertPath_sub l ks (fun q hq => h q (by simp [hq]))
+
+theorem writeBack_ok (out inv : St) (h : inv.bs = out.bs) : ∃ r, writeBack out inv = .ok r := by
+  unfold writeBack
+  simp only [h, ne_eq, not_true_eq_false, if_false]
+  split <;> exact ⟨_, rfl⟩
+
+/-- writing back an object with the same batch size and the same keys leaves the original as it was -/
+theorem writeBack_same_keys (out inv : St) (h : inv.bs = out.bs) (hk : inv.keys = out.keys) : writeBack out inv = .ok out := by
+  unfold writeBack
+  simp only [h, ne_eq, not_true_eq_false, if_false, hk, foldl_insertPath_sub out.keys out.keys (fun _ hp => hp)]
+  split <;> rfl
+
+theorem applyEdits_values : ∀ (es : List Edit) (y : St), (∀ e ∈ es, e = Edit.value) → applyEdits y es = .ok y
+  | [], _, _ => rfl
+  | e :: es, y, h => by
+    have he : e = Edit.value := h e (by simp)
+    subst he
+    simp only [applyEdits, applyEdit, bind, Except.bind]
+    exact applyEdits_values es y (fun e he => h e (by simp [he]))
+
+theorem exit_ok_of_inverse (name : String) (c : Call) (isSelf : Bool) (y' out : St) (invName : String) (invCall : Call)
+    (iop : Op) (hname : ¬ (name = "squeeze" ∧ isSelf = true))
+    (hrev : reverse name c y' out = .ok (invName, invCall))
+    (hinv : invName ≠ "lock_" ∧ invName ≠ "unlock_" ∧ invName ≠ "identity")
+    (hiop : toOp invName invCall = .ok (.shape iop))
+    (hshape : resShape y'.bs (opMeta iop y'.bs y'.names) = some out.bs)
+    (hprod : prod out.bs = prod y'.bs) (hne : emptyUnflatten iop = false) :
+    ∃ inv : St, inv.bs = out.bs ∧ inv.keys = y'.keys ∧ exitBlock name c true isSelf y' out = writeBack out inv := by
+  obtain ⟨inv, hinvok, hbs, hkeys⟩ := applyFwd_shape_ok iop y' out.bs hshape hprod hne
+  refine ⟨inv.st, hbs, hkeys, ?_⟩
+  unfold exitBlock
+  simp only [not_true_eq_false, if_false, hrev, bind, Except.bind, hname]
+  split
+  · exact absurd rfl hinv.1
+  · exact absurd rfl hinv.2.1
+  · exact absurd rfl hinv.2.2
+  · simp only [fwd, hiop, bind, Except.bind, hinvok]
+
+theorem block_total_of_inverse (name : String) (c : Call) (edits : List Edit) (s : St) (y : Yielded) (y' : St)
+    (op iop : Op) (invName : String) (invCall : Call) (hname : ¬ (name = "squeeze" ∧ y.isSelf = true))
+    (hop : toOp name c = .ok (.shape op)) (hf : applyFwd (.shape op) s = .ok y)
+    (he : applyEdits y.st edits = .ok y')
+    (hrev : ∀ out : St, out.bs = s.bs → reverse name c y' out = .ok (invName, invCall))
+    (hinv : invName ≠ "lock_" ∧ invName ≠ "unlock_" ∧ invName ≠ "identity")
+    (hiop : toOp invName invCall = .ok (.shape iop))
+    (hshape : ∀ nm2, resShape y.st.bs (opMeta iop y.st.bs nm2) = some s.bs)
+    (hne : emptyUnflatten iop = false) :
+    (∃ r, withBlock name c edits s = .ok r) ∧
+    ((∀ e ∈ edits, e = Edit.value) → withBlock name c edits s = .ok s) := by
+  obtain ⟨_, hprod, hrec, hself, _, hkeys⟩ := applyFwd_shape_res op s y hf
+  obtain ⟨hbs', _, _⟩ := applyEdits_frame edits y.st y' he
+  have hout : (if y.isSelf = true then y' else s).bs = s.bs := by
+    by_cases hs : y.isSelf = true
+    · simp only [hs, if_true, hbs', hself hs]
+    · simp only [hs]; rfl
+  obtain ⟨inv, hib, hik, hex⟩ := exit_ok_of_inverse name c y.isSelf y' (if y.isSelf = true then y' else s)
+    invName invCall iop hname (hrev _ hout) hinv hiop
+    (by rw [hbs', hout]; exact hshape _) (by rw [hbs', hout]; exact hprod.symm) hne
+  have hw : withBlock name c edits s = writeBack (if y.isSelf = true then y' else s) inv := by
+    unfold withBlock
+    simp only [fwd, hop, hf, he, bind, Except.bind, hrec]
+    exact hex
+  refine ⟨by rw [hw]; exact writeBack_ok _ _ hib, fun hv => ?_⟩
+  have hy' : y' = y.st := by
+    have := applyEdits_values edits y.st hv
+    rw [this] at he; exact (Except.ok.inj he).symm
+  have hos : (if y.isSelf = true then y' else s) = s := by
+    by_cases hs : y.isSelf = true
+    · simp only [hs, if_true, hy', hself hs]
+    · simp only [hs]; rfl
+  rw [hw, hos]
+  rw [hos] at hib
+  exact writeBack_same_keys s inv hib (by rw [hik, hy', hkeys])
+
+theorem fwd_split (name : String) (c : Call) (s : St) (y : Yielded) (h : fwd name c s = .ok y) :
+    ∃ f, toOp name c = .ok f ∧ applyFwd f s = .ok y := by
+  unfold fwd at h
+  simp only [bind, Except.bind] at h
+  split at h
+  · cases h
+  · rename_i f hf; exact ⟨f, hf, h⟩
+
+theorem toOp_transpose_shape (c : Call) (f : Fwd) (h : toOp "transpose" c = .ok f) :
+    ∃ d0 d1, f = .shape (.transpose d0 d1) := by
+  simp only [toOp, bind, Except.bind] at h
+  repeat' split at h
+  all_goals first | (cases h; done) | (simp only [pure, Except.pure, Except.ok.injEq] at h; exact ⟨_, _, h.symm⟩)
+
+theorem toOp_transpose_pos (d0 d1 : Int) :
+    toOp "transpose" ⟨[.int d0, .int d1], []⟩ = .ok (.shape (.transpose d0 d1)) := by
+  rfl
+
+theorem natsToInts_length (l : List Nat) : (natsToInts l).length = l.length := by simp [natsToInts]
+
+theorem natsToInts_of_nonneg (dl : List Int) (h : ∀ d ∈ dl, 0 ≤ d) : natsToInts (dl.map Int.toNat) = dl := by
+  induction dl with
+  | nil => rfl
+  | cons a l ih =>
+    have ha : 0 ≤ a := h a (by simp)
+    have := ih (fun d hd => h d (by simp [hd]))
+    simp only [natsToInts, List.map_cons, List.map_map] at this ⊢
+    rw [this]
+    congr 1
+    simp only [Int.ofNat_eq_natCast]; omega
+
+/-- a `permute` call that is accepted names a permutation of the batch dims, and the result is the batch size read through it -/
+theorem permuteMeta_ok_perm (dims : List Int) (bs bs' : Shape) (nm : Names)
+    (h : resShape bs (permuteMeta dims bs nm) = some bs') :
+    ∃ p : List Nat, dims.map (fun d => if d ≥ 0 then d else (bs.length : Int) + d) = natsToInts p ∧
+      p.Perm (List.range bs.length) ∧ bs' = p.map (fun i => bs.getD i 0) := by
+  unfold permuteMeta at h
+  simp only [] at h
+  generalize hdl : dims.map (fun d => if d ≥ 0 then d else (bs.length : Int) + d) = dl at h
+  by_cases h1 : dl.any (fun d => d < 0 ∨ d ≥ (bs.length : Int)) = true
+  · rw [if_pos h1] at h; simp [resShape] at h
+  rw [if_neg h1] at h
+  by_cases h2 : dl.length ≠ bs.length
+  · rw [if_pos h2] at h; simp [resShape] at h
+  rw [if_neg h2] at h
+  by_cases h3 : (dl.map Int.toNat).mergeSort ≠ List.range (dl.map Int.toNat).length
+  · rw [if_pos h3] at h; simp [resShape] at h
+  rw [if_neg h3] at h
+  have hpl : (dl.map Int.toNat).length = bs.length := by simp; omega
+  have hperm := perm_range_of_mergeSort (dl.map Int.toNat) (by simpa using h3)
+  rw [hpl] at hperm
+  have hnn : ∀ d ∈ dl, 0 ≤ d := by
+    intro d hd
+    have := h1
+    simp only [List.any_eq_true, not_exists, not_and] at this
+    have := this d hd
+    simp at this; omega
+  refine ⟨dl.map Int.toNat, (natsToInts_of_nonneg dl hnn).symm, hperm, ?_⟩
+  by_cases h4 : (dl.map Int.toNat).length = 0 ∧ bs.length = 0
+  · rw [if_pos h4] at h
+    simp only [resShape, Option.some.injEq] at h
+    subst h
+    have hb : bs = [] := List.eq_nil_of_length_eq_zero h4.2
+    have hd0 : dl.map Int.toNat = [] := List.eq_nil_of_length_eq_zero h4.1
+    rw [hd0, hb]; rfl
+  rw [if_neg h4] at h
+  by_cases h5 : dl.map Int.toNat = List.range (dl.map Int.toNat).length
+  · rw [if_pos h5] at h
+    simp only [resShape, Option.some.injEq] at h
+    subst h
+    rw [h5, hpl]; exact (range_map_getD' bs).symm
+  · rw [if_neg h5] at h
+    simp only [resShape, Option.some.injEq] at h
+    rw [← h, hpl, List.drop_length, List.append_nil]
+
 end TdVerif.C17
